@@ -179,7 +179,7 @@ func crashSweep(run *vh.Run, dir string, h appdrv.History, step int64) {
 	for k := int64(0); k <= size+1; k += step {
 		// restore the previous file: re-run to the previous save point is expensive, so write the
 		// previous image back by loading/saving through a second instance
-		b, _ := appdrv.NewAppAt(h.Genesis, filepath.Join(dir, "prev.gob"))
+		b, _ := appdrv.NewApp(h.Genesis)
 		for _, c := range h.Calls[:lastBegin] {
 			appdrv.Exec(b, c)
 		}
@@ -214,7 +214,6 @@ func crashSweep(run *vh.Run, dir string, h appdrv.History, step int64) {
 	}
 	os.Remove(gob)
 	os.Remove(gob + ".tmp")
-	os.Remove(filepath.Join(dir, "prev.gob"))
 }
 
 func main() {
